@@ -58,7 +58,7 @@ func (c04) Budget(tier string) runner.Budget {
 	if tier == "thorough" {
 		return runner.Budget{Plans: 300000, PlansPerProc: 2000, Wall: 12 * time.Minute}
 	}
-	return runner.Budget{Plans: 8000, PlansPerProc: 250, Wall: 60 * time.Second}
+	return runner.Budget{Plans: 64000, PlansPerProc: 1000, Wall: 45 * time.Second}
 }
 
 func (c04) Describe() runner.Description {
